@@ -119,3 +119,20 @@ def takePrim (tag : Nat) (b : Bytes) : Option (Bytes × Bytes) :=
 def AllBytes (b : Bytes) : Prop := ∀ x ∈ b, x < 256
 
 end Rpki.Der
+
+namespace Rpki.Der
+
+/-- read a captured octet string as a sequence of values until it is used up (what the iterators
+over captured sub-encodings do); `none` when a value is malformed -/
+def readAll : Nat → Bytes → Option (List (Nat × Bytes))
+  | 0, b => if b = [] then some [] else none
+  | fuel + 1, b =>
+    if b = [] then some []
+    else match readTlv b with
+      | none => none
+      | some (t, c, rest) => (readAll fuel rest).map ((t, c) :: ·)
+
+/-- the concatenated encodings of a list of values (the *content* of a SEQUENCE OF) -/
+def encodeAll (items : List (Nat × Bytes)) : Bytes := (items.map fun (t, c) => tlv t c).flatten
+
+end Rpki.Der
